@@ -990,8 +990,12 @@ func (rn *runner) GenOp(r *vh.Rand, i int) string {
 			return fmt.Sprintf("tokdec %s %s", key, rhex(r, n))
 		}
 		kind := []string{"retry", "new"}[r.Intn(2)]
+		ak := []string{"u", "t"}[r.Pick(80, 20)]
 		ip := rhex(r, []int{4, 16, 0}[r.Pick(45, 45, 10)])
-		return fmt.Sprintf("tokrt %s %s %s %s %d %s %s %d", key, kind, []string{"u", "t"}[r.Pick(80, 20)], ip, r.Intn(65536), rhex(r, cidLen(r)), rhex(r, cidLen(r)),
+		if ak == "t" { // (*net.TCPAddr).String() is modelled for empty and 4-byte IPs only
+			ip = rhex(r, []int{4, 0}[r.Pick(85, 15)])
+		}
+		return fmt.Sprintf("tokrt %s %s %s %s %d %s %s %d", key, kind, ak, ip, r.Intn(65536), rhex(r, cidLen(r)), rhex(r, cidLen(r)),
 			[]uint64{0, 1, 127, 128, 255, 256, 32767, 32768, 100000, 1 << 40}[r.Intn(10)])
 	}
 }
